@@ -253,9 +253,42 @@ func (dec *Decoder) DiscardLine() {
 	if dec.crlf {
 		return
 	}
-	var text string
-	dec.Text(&text)
-	dec.CRLF()
+	for {
+		var text string
+		dec.Text(&text)
+		if !dec.CRLF() {
+			return
+		}
+		// If the line ends with a non-synchronizing literal, the literal data
+		// and the rest of the command follow: discard them as well
+		size, ok := trailingNonSyncLiteral(text)
+		if !ok || dec.side != ConnSideServer {
+			return
+		}
+		dec.crlf = false
+		if _, err := io.CopyN(io.Discard, dec.r, size); err != nil {
+			dec.returnErr(err)
+			return
+		}
+	}
+}
+
+// trailingNonSyncLiteral checks whether a line ends with a non-synchronizing
+// literal header such as "{42+}" and returns the literal size.
+func trailingNonSyncLiteral(line string) (size int64, ok bool) {
+	if !strings.HasSuffix(line, "+}") {
+		return 0, false
+	}
+	line = strings.TrimSuffix(line, "+}")
+	i := strings.LastIndexByte(line, '{')
+	if i < 0 {
+		return 0, false
+	}
+	size, err := strconv.ParseInt(line[i+1:], 10, 64)
+	if err != nil || size < 0 {
+		return 0, false
+	}
+	return size, true
 }
 
 func (dec *Decoder) DiscardValue() bool {
